@@ -157,6 +157,32 @@ def run(chk):
         if partition_of(list(enumerate(clus))) != partition_of(list(enumerate(a[1]))):
             chk.violation("C15|hierarchical_clustering|single-linkage-vs-components", "single linkage at distance t does not give the "
                           "connected components of the max_edits = t neighbour graph", {**meta, "clusters": clus, "components": a[1]})
+    # explicit Metric objects, same data, DIFFERENT weights in consecutive calls (a stale distance cache would show here)
+    from pyrepseq.metric import WeightedLevenshtein
+    wops, wmeta = [], []
+    for _ in range(6 if not thorough else 40):
+        xs = gen.sub_collection(rng, pool, rng.randint(3, 9))
+        seq_w = [(1, 1, 1), (1, 1, 2), (2, 1, 1), (1, 1, 1), (1, 3, 1)]
+        rng.shuffle(seq_w)
+        for (wi, wd, ws) in seq_w[:4]:
+            lk = dict(method="average")
+            ck = dict(t=2, criterion="distance")
+            real = core.call_real(lambda: ds.hierarchical_clustering(xs, metric=WeightedLevenshtein(wi, wd, ws), linkage_kws=lk, cluster_kws=ck))
+            wops.append({"op": "pdist_vec", "xs": xs, "metric": "wlev", "wi": wi, "wd": wd, "ws": ws})
+            wmeta.append((xs, (wi, wd, ws), lk, ck, real))
+    for (xs, w, lk, ck, real), a in zip(wmeta, core.run_driver_parallel(wops)):
+        meta = {"xs": xs, "weights": list(w)}
+        chk.case(nontrivial_key=("hier-metric", json.dumps(meta)))
+        chk.count("hierarchical:explicit-metric")
+        if real[0] != "ok":
+            chk.violation(f"C15|hierarchical_clustering|metric|raises-{real[1]}", "hierarchical_clustering(metric=WeightedLevenshtein(...)) raised", meta)
+            continue
+        vec = np.array([float(core.frac(v)) for v in a[1]])
+        wl = hc.linkage(vec, **lk)
+        wc = hc.fcluster(wl, **ck)
+        if not np.allclose(real[1][0], wl) or list(real[1][1]) != list(wc):
+            chk.violation("C15|hierarchical_clustering|metric-differs", "hierarchical_clustering does not use the pairwise distances of the metric it "
+                          "was given (e.g. distances of an earlier call's metric)", {**meta, "real": [int(c) for c in real[1][1]], "want": [int(c) for c in wc]})
     # TCR table with arbitrary index: default metric chosen as in pcDelta, labels in input order
     rows = [("CAVR", "CASSL"), ("CAVK", "CASSL"), ("CAAAA", "CQQQQQ"), ("CAVR", "CASSQ")]
     df = pd.DataFrame(rows, columns=["CDR3A", "CDR3B"], index=[9, 2, 7, 4])
